@@ -73,6 +73,13 @@ def position_payload(cmd):
     return {"fen": fen, "start": {k: s[k] for k in ("r", "stm", "cr", "ep")}, "half": s["half"], "full": s["full"], "texts": texts}
 
 
+def default_cwd():
+    # the engine may write walleye_<pid>.log into its working directory: keep that inside /verif/build
+    d = os.path.join(os.path.dirname(os.path.dirname(os.path.abspath(__file__))), "build", "run-cwd")
+    os.makedirs(d, exist_ok=True)
+    return d
+
+
 class Session:
     def __init__(self, binary, trace_path=None, cwd=None, prefix=None):
         env = dict(os.environ)
@@ -80,7 +87,7 @@ class Session:
             env["WALLEYE_VERIF_TRACE"] = trace_path
         self.t0 = time.monotonic()
         self.p = subprocess.Popen((prefix or []) + [binary], stdin=subprocess.PIPE, stdout=subprocess.PIPE, stderr=subprocess.PIPE, env=env,
-                                  cwd=cwd or "/tmp", bufsize=0)
+                                  cwd=cwd or default_cwd(), bufsize=0)
         self.q = queue.Queue()
         self.events = [{"ev": "reset"}]
         self.stderr = []
@@ -210,10 +217,10 @@ def handshake(s, timeout_ms=3000):
     return s.wait_for("uciok", timeout_ms) is not None
 
 
-def run_script(binary, steps, trace_path=None, drain_ms=20, prefix=None):
+def run_script(binary, steps, trace_path=None, drain_ms=20, prefix=None, cwd=None):
     """steps: list of dicts: {"do": "send", "line": ..., "extra": {...}} | {"do": "go", "line":..., "extra":{...}, "wait_ms":...}
     | {"do": "isready"} | {"do": "eof"} | {"do": "quit"}.  Returns the event list."""
-    s = Session(binary, trace_path, prefix=prefix)
+    s = Session(binary, trace_path, cwd=cwd, prefix=prefix)
     if not handshake(s):
         s.finish("handshake", 1000)
         return s.events
